@@ -26,7 +26,7 @@ def gen_cases(rng, tier, ctx):
         wl = gen.rand_list(rng)
         m = gen.rand_modes(rng)
         cs.append({'line': 'plan_enc %s %s %d' % (fmt_list(d), fmt_list(wl), m), 'cat': 'random', 'cfg': dict(data=d, wl=wl, modes=m)})
-    for c in gen.boundary_cases(rng, tier, per_cap=2 if tier == 'quick' else 6) + gen.constant_cases(rng, tier) + [c for c in gen.limit_cases(rng, tier) if not c['cfg']['fnc1'] and c['cfg']['eci'] is None]:
+    for c in gen.boundary_cases(rng, tier, per_cap=2 if tier == 'quick' else 6) + gen.constant_cases(rng, tier) + gen.adjacent_capacity_cases(rng, tier) + [c for c in gen.limit_cases(rng, tier) if not c['cfg']['fnc1'] and c['cfg']['eci'] is None]:
         g = c['cfg']
         cs.append({'line': 'plan_enc %s %s %d' % (fmt_list(g['data']), fmt_list(g['wl']), g['modes']), 'cat': c['cat'], 'cfg': g})
     return cs
